@@ -61,7 +61,7 @@ Qed.
 Lemma expand_home_ok1 W (cmd : str) l l' :
   ~ In 126 cmd -> Forall2 (tok_ok1 W) l l' -> expand_home W ((TNone, cmd) :: l) = (TNone, cmd) :: l.
 Proof.
-  intros Hc Hl. unfold expand_home. cbn [map].
+  intros Hc Hl. rewrite expand_home_map. cbn [map].
   assert (E : map (expand_home_tok W) l = l).
   { induction Hl as [|t t' l l' Ht _ IH]; [reflexivity|]. cbn [map]. rewrite IH, (tok_ok1_home _ _ _ Ht). reflexivity. }
   rewrite E. unfold expand_home_tok. cbn [fst snd tag_is_empty tag_eqb]. rewrite (strip_prefix_absent 126 cmd Hc).
@@ -79,7 +79,7 @@ Qed.
 Lemma expand_env_ok1 W (cmd : str) l l' :
   ~ In 36 cmd -> Forall2 (tok_ok1 W) l l' -> expand_env W ((TNone, cmd) :: l) = (TNone, cmd) :: l'.
 Proof.
-  intros Hc Hl. unfold expand_env. cbn [map].
+  intros Hc Hl. rewrite expand_env_map. cbn [map].
   assert (E : map (expand_env_tok W) l = l').
   { induction Hl as [|t t' l l' Ht _ IH]; [reflexivity|]. cbn [map]. rewrite IH, (expand_env_tok_ok1 _ _ _ Ht). reflexivity. }
   rewrite E. unfold expand_env_tok. cbn [fst snd]. rewrite (env_in_token_no_dollar cmd Hc). reflexivity.
